@@ -33,7 +33,11 @@ RULE = ('cmp cases: all ordered pairs (and, for the order laws, all triples) of 
         '(D18), history (one context object before / after an in-place change through its setters, and a fresh '
         'equal context: different content => refused, equal content => accepted; the stored hash must be the '
         'hash of the content), mining (pattern concepts from both close_by_one paths with from_objects twins and '
-        'permuted is_extent selections: == true => equal hash, one set element, one dict key); fromobj cases: every object subset of a context with <= 6 (quick) / 8 (thorough) objects by '
+        'permuted is_extent selections: == true => equal hash, one set element, one dict key), routes (concepts '
+        'of one context from from_objects, close_by_one, close_by_one_objectwise, close_by_one_objectwise_fbarray '
+        '(also directly on an MVContext), lindig_algorithm, sofia, random_forest_concepts, ConceptLattice.'
+        'from_context with each algo, and read back from dict / json: accepted and ordered across routes, refused '
+        'across contexts incl. MVContext vs its binarised FormalContext); fromobj cases: every object subset of a context with <= 6 (quick) / 8 (thorough) objects by '
         'index and by name, permuted subsets, unknown names, is_extent, is_monotone; pallobj cases: every object subset of many-valued contexts mixing SetPS (empty value sets, '
         'multi-valued rows), AttributePS and the two interval engines; setattr: every public '
         'field; non-trivial = a cmp case with >= 3 concepts of which two are comparable and two are not, or a '
@@ -163,8 +167,11 @@ def concepts_for(case, sel, K):
     from fcapy.lattice.formal_concept import FormalConcept
     from fcapy.lattice.pattern_concept import PatternConcept
     from fcapy.algorithms import concept_construction as cca
-    cls = PatternConcept if case['pattern'] else FormalConcept
+    from fcapy.mvcontext import MVContext
+    cls = PatternConcept if isinstance(K, MVContext) else FormalConcept
     kind = sel[0]
+    if kind == 'route':
+        return route_concepts(K, cls, sel)
     if kind in ('lat', 'cbo'):
         _, k, arg, seed, cap = sel
         try:
@@ -184,6 +191,78 @@ def concepts_for(case, sel, K):
     is_extent = bool(sel[4]) if len(sel) > 4 else False
     arg = [nm(x) for x in objs] if by_name else list(objs)
     return [cls.from_objects(arg, K, is_extent=is_extent)]
+
+
+FORMAL_ROUTES = ['from_objects', 'cbo', 'cbo_obj', 'cbo_fb', 'lindig', 'sofia', 'lattice', 'lattice_sofia',
+                 'lattice_lindig', 'dict', 'json']
+PATTERN_ROUTES = ['from_objects', 'cbo', 'cbo0', 'cbo_obj', 'cbo_fb', 'sofia', 'lattice', 'json']
+
+
+def route_concepts(K, cls, sel):
+    """Concepts of the context object K built by one of the routes the library offers."""
+    from fcapy.lattice import ConceptLattice
+    from fcapy.algorithms import concept_construction as cca
+    _, k, name, seed, cap = sel
+    r = random.Random(seed)
+    n = K.n_objects
+    pattern = cls.__name__ == 'PatternConcept'
+
+    def some_from_objects(count):
+        out = []
+        for _ in range(count):
+            objs = r.sample(range(n), r.randint(0, n))
+            out.append(cls.from_objects(objs, K))
+        return out
+    try:
+        if name == 'from_objects':
+            cs = some_from_objects(cap)
+        elif name == 'cbo':
+            cs = list(cca.close_by_one(K))
+        elif name == 'cbo0':
+            cs = list(cca.close_by_one(K, n_projections_to_binarize=0))
+        elif name == 'cbo_obj':
+            cs = list(cca.close_by_one_objectwise(K))
+        elif name == 'cbo_fb':
+            cs = list(cca.close_by_one_objectwise_fbarray(K))
+        elif name == 'lindig':
+            cs = list(cca.lindig_algorithm(K))
+        elif name == 'sofia':
+            cs = list(cca.sofia(K, L_max=r.choice([3, 100])))
+        elif name == 'lattice':
+            cs = list(ConceptLattice.from_context(K))
+        elif name == 'lattice_sofia':
+            cs = list(ConceptLattice.from_context(K, algo='Sofia'))
+        elif name == 'lattice_lindig':
+            cs = list(ConceptLattice.from_context(K, algo='Lindig'))
+        elif name == 'rf':
+            K2 = make_ctx_with_target(K, [i % 2 for i in range(n)])
+            cs = list(cca.random_forest_concepts(K2, rf_params={'n_estimators': 2, 'random_state': seed % 1000}))
+        elif name == 'dict':
+            objs, attrs = list(K.object_names), list(K.attribute_names)
+            cs = [cls.from_dict(dict(c.to_dict(objs, attrs))) for c in some_from_objects(cap)]
+        elif name == 'json':
+            if pattern:
+                cs = [cls.read_json(json_data=c.write_json()) for c in some_from_objects(cap)]
+            else:
+                objs, attrs = list(K.object_names), list(K.attribute_names)
+                cs = [cls.read_json(json_data=c.write_json(objs, attrs)) for c in some_from_objects(cap)]
+        else:
+            raise ValueError(name)
+    except (KeyError, AssertionError, TypeError, ValueError, IndexError):   # mining defects are C02/C14/C15's business
+        cs = []
+    if len(cs) > cap:
+        cs = r.sample(cs, cap)
+    return cs
+
+
+def make_ctx_with_target(K, target):
+    from fcapy.mvcontext import MVContext
+    from fcapy.context import FormalContext
+    if isinstance(K, MVContext):
+        return MVContext(data=K.data, pattern_types=K.pattern_types, object_names=list(K.object_names),
+                         attribute_names=list(K.attribute_names), target=target)
+    return FormalContext(data=K.data.to_list(), object_names=list(K.object_names),
+                         attribute_names=list(K.attribute_names), target=target)
 
 
 def warm_up(K, pattern):
@@ -229,6 +308,8 @@ def select_concepts(case, ctxs_in):
     for k in sorted(set(sel[1] for sel in case['sel'])):
         if mut and k == 1:
             K = mutate(ctxs[0], case['ctxs'][0], case['ctxs'][1], case['pattern'], mut)
+        elif 'binarize_of' in case['ctxs'][k]:
+            K = make_ctx(case['ctxs'][case['ctxs'][k]['binarize_of']]).binarize()
         else:
             K = make_ctx(case['ctxs'][k])
             if mut and k == 0:
@@ -243,12 +324,23 @@ def select_concepts(case, ctxs_in):
 
 
 def run_cmp(case):
-    fresh = [make_ctx(c).hash_fixed() for c in case['ctxs']]
+    from fcapy.lattice.pattern_concept import PatternConcept
+    fresh, resolved = [], []
+    for c in case['ctxs']:
+        if 'binarize_of' in c:      # the formal context MVContext.binarize() builds: a different context
+            src = case['ctxs'][c['binarize_of']]
+            B = make_ctx(src).binarize()
+            fresh.append(B.hash_fixed())
+            resolved.append({'onames': list(src['onames']), 'anames': list(range(B.n_attributes)),
+                             'table': canon(B.data.to_list())})
+        else:
+            fresh.append(make_ctx(c).hash_fixed())
+            resolved.append(None)
     sel = select_concepts(case, case['ctxs'])
     concepts = []
     for k, c in sel:
         mono = bool(getattr(c, 'is_monotone', False))
-        concepts.append([k, canon(c.context_hash), mono, canon(list(c.extent_i))])
+        concepts.append([k, canon(c.context_hash), mono, canon(list(c.extent_i)), isinstance(c, PatternConcept)])
     res = []
     for _, a in sel:
         for _, b in sel:
@@ -262,7 +354,7 @@ def run_cmp(case):
             except Exception:  # noqa
                 row.append(5)
             res.append(row)
-    return {'concepts': concepts, 'res': res, 'fresh': fresh}
+    return {'concepts': concepts, 'res': res, 'fresh': fresh, 'resolved': resolved}
 
 
 def name_ids(names):
@@ -404,7 +496,7 @@ def to_coq(case, out):
     if out[0] != 'ok':
         # the whole case blew up in the harness or the library: a case no model accepts
         if kind == 'cmp':
-            return 'CmpCase %s [] [] [mk_cc 0 0%%Z false []] []' % coq(bool(case['pattern']))
+            return 'CmpCase %s [] [] [mk_cc 0 0%%Z false [] false] []' % coq(bool(case['pattern']))
         if kind == 'fromobj':
             return 'FromObjCase BLists %s 0%%Z [(ByIndex [], false, false, FErr 11)]' % fctx_term(case['ctx'])
         if kind == 'pfromobj':
@@ -416,9 +508,11 @@ def to_coq(case, out):
         return 'HashCase %s (-1)%%Z' % fctx_term(case['ctx'])
     o = out[1]
     if kind == 'cmp':
-        cs = '[' + '; '.join('mk_cc %d %s %s %s' % (k, zlit(h if isinstance(h, int) else -1), coq(bool(m)),
-                                                   coq(e if is_idx_list(e) else [])) for k, h, m, e in o['concepts']) + ']'
-        return 'CmpCase %s [%s] %s %s %s' % (coq(bool(case['pattern'])), '; '.join(ctx_term(c) for c in case['ctxs']),
+        cs = '[' + '; '.join('mk_cc %d %s %s %s %s' % (k, zlit(h if isinstance(h, int) else -1), coq(bool(m)),
+                                                      coq(e if is_idx_list(e) else []), coq(bool(pt)))
+                             for k, h, m, e, pt in o['concepts']) + ']'
+        ctxs = [ctx_term(r if r is not None else c) for c, r in zip(case['ctxs'], o['resolved'])]
+        return 'CmpCase %s [%s] %s %s %s' % (coq(bool(case['pattern'])), '; '.join(ctxs),
                                              zl(o['fresh']), cs, coq(o['res']))
     if kind in ('fromobj', 'pfromobj'):
         items = []
@@ -664,6 +758,31 @@ def history_case(rng, tier, pattern):
             'mutate': how}
 
 
+def routes_case(rng, tier, pattern, with_rf=False):
+    """Concepts of ONE context drawn from every construction route the library offers (must be mutually
+    comparable and ordered by extent inclusion, each carrying the hash of its context), optionally a second,
+    different context (pairs across routes must be refused), and for a many-valued context the formal
+    context K.binarize() builds (formal-vs-pattern pairs: different contexts, refused)."""
+    seed = rng.randrange(10 ** 6)
+    routes = list(PATTERN_ROUTES if pattern else FORMAL_ROUTES) + (['rf'] if with_rf else [])
+    a = mv_ctx(rng, 5, 2) if pattern else formal_ctx(rng, 5, min_h=2)
+    ctxs = [a]
+    picked = rng.sample(routes, min(len(routes), rng.randint(4, 6)))
+    if with_rf and 'rf' not in picked:
+        picked[0] = 'rf'
+    sel = [['route', 0, name, seed + i, 2] for i, name in enumerate(picked)]
+    r = rng.random()
+    if r < 0.35:        # a second, different context: cross-context pairs across routes
+        b = mv_ctx(rng, 5, 2) if pattern else formal_ctx(rng, 5, min_h=2)
+        ctxs.append(b)
+        sel = sel[:4] + [['route', 1, name, seed + 50 + i, 2] for i, name in enumerate(rng.sample(routes, 3))]
+    elif pattern and r < 0.75:   # the binarised (formal) context of the same data
+        ctxs.append({'binarize_of': 0})
+        sel = sel[:4] + [['route', 1, name, seed + 70 + i, 2]
+                         for i, name in enumerate(rng.sample(['cbo', 'cbo_fb', 'lindig', 'sofia', 'from_objects'], 3))]
+    return {'kind': 'cmp', 'pattern': pattern, 'stream': 'routes' + ('-rf' if with_rf else ''), 'ctxs': ctxs, 'sel': sel}
+
+
 def mining_case(rng, tier):
     """Pattern concepts from both mining paths of close_by_one (the objectwise one stores extents in
     discovery order, e.g. (0, 1, 4, 2)), each with its from_objects twin, plus a permuted is_extent one."""
@@ -765,14 +884,16 @@ def hash_case(rng):
 def generate(rng, tier):
     quick = tier == 'quick'
     cases = []
-    n_cmp = 230 if quick else 2000
+    n_cmp = 180 if quick else 1800
     streams = ['single'] * 5 + ['cross'] * 3 + ['equal'] + ['collide']
     for _ in range(n_cmp):
         cases.append(cmp_case(rng, tier, rng.choice(streams), pattern=rng.random() < 0.35))
     for _ in range(70 if quick else 500):
         cases.append(history_case(rng, tier, pattern=rng.random() < 0.6))
-    for _ in range(50 if quick else 400):
+    for _ in range(40 if quick else 400):
         cases.append(mining_case(rng, tier))
+    for i in range(90 if quick else 700):
+        cases.append(routes_case(rng, tier, pattern=rng.random() < 0.5, with_rf=(i % (30 if quick else 12) == 0)))
     for _ in range(40 if quick else 400):
         cases.append(fromobj_case(rng, tier, pattern=False))
     for _ in range(20 if quick else 200):
@@ -791,7 +912,7 @@ def generate(rng, tier):
 
 def nontrivial(case):
     if case['kind'] == 'cmp':
-        return len(case['sel']) >= 1 and all(n_objects(c) >= 2 for c in case['ctxs'])
+        return len(case['sel']) >= 1 and all(n_objects(c) >= 2 for c in case['ctxs'] if 'onames' in c)
     if case['kind'] == 'pallobj':
         return n_objects(case['ctx']) >= 2
     if case['kind'] in ('fromobj', 'pfromobj'):
@@ -808,6 +929,8 @@ def stats(case):
     if case['kind'] == 'cmp':
         d['stream'] = ('pattern-' if case['pattern'] else 'formal-') + case['stream']
         d['objects'] = n_objects(case['ctxs'][0])
+        if case['stream'].startswith('routes'):
+            d['routes'] = '+'.join(sorted(set(x[2] for x in case['sel'] if x[0] == 'route')))[:60]
     elif case['kind'] == 'pallobj':
         d['objects'] = n_objects(case['ctx'])
         d['structures'] = '+'.join(sorted(set(case['ctx']['ptypes'])))
